@@ -217,7 +217,7 @@ func c01Op(c *Ctx, r *Report, a *Anchors) {
 			r.check("C01.OP", fmt.Sprintf("%s: resolver-reaching call #%d resolves the selections of the chosen operation", fnName(fn), n), ci.Pos(), okSels && len(leaves) > 0, why+": a prepared document with several operations would run the selections of another operation than the one named")
 		}
 	}
-	r.floor("C01.OP", "resolver-reaching calls in the entry point", n, 2)
+	r.floor("C01.OP", "resolver-reaching calls in the entry point", n, 1)
 }
 
 // responseMaps computes, per function, the parameters (and local maps) that flow
@@ -753,9 +753,10 @@ func c01Sel(c *Ctx, r *Report, a *Anchors) {
 		}
 	}
 	dh := map[string]bool{}
+	tAlias := wrapperAliases(a.dispatch, tParam)
 	for _, b := range a.dispatch.Blocks {
 		for _, in := range b.Instrs {
-			if ta, ok := in.(*ssa.TypeAssert); ok && stripIface(ta.X) == tParam {
+			if ta, ok := in.(*ssa.TypeAssert); ok && tAlias[stripIface(ta.X)] {
 				dh[typeStr(ta.AssertedType)] = true
 			}
 		}
